@@ -195,7 +195,14 @@ def run_unit(unit, workdir, seed=None, rlimit=None, do_canary=True, keep=None):
         if d.get("level") != "error": continue
         if d.get("message", "").startswith("aborting due to"): continue
         cls, kind = classify_diag(d)
-        spans = d.get("spans", [])
+        spans = []
+        for sp in d.get("spans", []):
+            cur = sp
+            while cur is not None and os.path.basename(cur.get("file_name", "")) != os.path.basename(path) and cur.get("expansion"):
+                cur = cur["expansion"].get("span")
+            if cur is not None and cur is not sp:
+                cur = dict(cur); cur["is_primary"] = sp.get("is_primary"); cur["label"] = sp.get("label")
+            spans.append(cur or sp)
         prim = [s for s in spans if s.get("is_primary")] or spans
         if cls == "fail" and prim:
             ps = prim[0]
